@@ -78,6 +78,7 @@ fn main() {
             let lists: usize = a[3].parse().unwrap();
             let maxn: usize = a[4].parse().unwrap();
             let mut sink = Sink::create(&a[5]);
+            let with_nan = a.get(7).map(|s| s == "nan").unwrap_or(false);
             let mut rng = Rng::new(seed);
             let (mut st, mut tr, mut closed_all) = (0usize, 0usize, true);
             let mut samples = vec![];
@@ -107,7 +108,7 @@ fn main() {
                 all.push(random_ends(&mut rng, n));
             }
             for ends in &all {
-                let (s, t, c) = explore_evaluator(ends, true, &mut sink, 4000);
+                let (s, t, c) = explore_evaluator(ends, with_nan, &mut sink, 4000);
                 st += s;
                 tr += t;
                 closed_all &= c;
@@ -123,13 +124,14 @@ fn main() {
             let depth: usize = a[2].parse().unwrap();
             let maxn: usize = a[3].parse().unwrap();
             let mut sink = Sink::create(&a[4]);
+            let with_nan = a.get(5).map(|s| s == "nan").unwrap_or(false);
             let mut count = 0;
             for n in 1..=maxn {
                 for dup in [false, true] {
                     let ends: Vec<f64> = (0..n).map(|i| if dup && i > 0 { (i - 1).max(1) as f64 } else { i as f64 }).collect();
                     let mut e = ends.clone();
                     e.sort_by(|a, b| a.partial_cmp(b).unwrap());
-                    count += bounded_histories(&e, depth, true, &mut sink);
+                    count += bounded_histories(&e, depth, with_nan, &mut sink);
                 }
             }
             let ev = sink.finish();
